@@ -14,7 +14,7 @@ From Whawty Require Import Bytes Base64 Names Record Store.
 Open Scope N_scope.
 
 Inductive kind := KStat | KOpen | KMkdir | KWrite | KRead | KCopy | KFsync | KRename | KUnlink.
-Inductive errno := ENOSPC | EIO | EACCES | EMFILE.
+Inductive errno := ENOSPC | EIO | EACCES | EMFILE | EXDEV | EDQUOT | EROFS.
 
 Definition kind_eqb (a b : kind) : bool :=
   match a, b with
